@@ -161,18 +161,6 @@ def run(tier):
         C.nontrivial(["opts", oj["steps"][0]["src"], str(oj["ctx"]["v"])])
         if orr[0].get("panic") or orr[0].get("abort"):
             C.violation({"kind": "panic-options", "src": oj["steps"][0]["src"]}, "panic: %s with %r: %s" % (oj["steps"][0]["src"], oj["ctx"]["v"], orr[0].get("msg")), {"job": oj})
-    # options of the wrong kind, and the codecs applied on a set block / as a filter section: an error value, never a panic
-    ojobs = []
-    for call in ("b64_encode(url_safe=1)", "b64_encode(padded='no')", "b64_decode(url_safe=1)", "b64_decode(url_safe=none)", "json_encode(pretty='true')", "json_encode(pretty=none)", "urlencode(x=1)",
-                 "slug(x=1)", "b64_encode(url_safe=true, padded=false)", "b64_decode", "json_encode(pretty=true)", "urlencode", "urlencode_strict", "slug"):
-        for form in ("{{ v | %s }}", "{%% set y | %s %%}a b{%% endset %%}{{ y }}", "{%% filter %s %%}a b{%% endfilter %%}", "{%% set_global y | %s | %s %%}YQ{%% endset %%}{{ y }}"):
-            for val in ("a b", "YQ==", [1], None):
-                ojobs.append({"cfg": {"contrib": True}, "ctx": {"v": val}, "steps": [{"op": "render_str", "src": form % ((call,) * form.count("%s")), "auto": False}]})
-    for oj, orr in zip(ojobs, vp.run_jobs(ojobs, tag="c20-opts")):
-        C.count()
-        C.nontrivial(["opts", oj["steps"][0]["src"], str(oj["ctx"]["v"])])
-        if orr[0].get("panic") or orr[0].get("abort"):
-            C.violation({"kind": "panic-options", "src": oj["steps"][0]["src"]}, "panic: %s with %r: %s" % (oj["steps"][0]["src"], oj["ctx"]["v"], orr[0].get("msg")), {"job": oj})
     r = vp.tlc("MC_Codecs", "MC_Codecs", env={"OBS": op}, workers=16, timeout=6000, name="c20", xmx="24g", allow_fail=True)
     C.add_tlc(r, "MC_Codecs over %d recorded calls" % len(recs))
     bad = set()
